@@ -31,12 +31,12 @@ def obligations(tier, seed=0):
     from mpmath.libmp import libelefun
     for fixed, rounded in CONSTS:
         if hasattr(libelefun, fixed):
-            for prec in (1, 2, 5, 10, 20, 33, 50):
+            for prec in ((1, 2, 5, 10, 20, 33, 50) if tier != 'thorough' else (1, 2, 3, 4, 5, 7, 10, 13, 20, 21, 22, 30, 33, 40, 45, 50)):
                 for state in ('empty', 'filled'):
                     for fault in (0, 1):
                         obs.append((FC + 'const_memo', dict(name=fixed, prec=prec, state=state, fault=fault)))
         if hasattr(libelefun, rounded):
-            for prec in (1, 2, 3, 10, 24, 40, 44):
+            for prec in ((1, 2, 3, 10, 24, 40, 44) if tier != 'thorough' else (1, 2, 3, 4, 5, 8, 10, 16, 24, 32, 40, 41, 42, 43, 44)):
                 for rnd in RNDS:
                     obs.append((FC + 'const_round', dict(name=rounded, prec=prec, rnd=rnd)))
     return obs
